@@ -39,8 +39,11 @@ MANIFEST = dict(
          "lemma too: in every module every identifier a definition uses (free identifiers extracted by the translator; "
          "prefixed unit spellings resolved to their unit) is defined earlier in the module or by a module that an "
          "earlier `use` imports transitively, the closure being computed by the resolver model itself "
-         "(C17_table_closed), and the graph is acyclic (C17_table_acyclic). NOT proved: the general theorem that "
-         "closedness + acyclicity make every inlined definition well-scoped in every import order, and that a "
+         "(C17_table_closed, soundness of the checker proved: closedb_sound), and the graph is acyclic "
+         "(C17_table_acyclic); general theorem C17_defs_available: on a closed table every statement inlined by any "
+         "successful import finds everything it needs in the session (output + earlier imports), in any order; "
+         "C17_stdlib_defs_available instantiates it to the real graph. NOT proved: that the providers come BEFORE "
+         "their users in the inlined order (needs acyclicity + a stack invariant of the depth-first pass), and that a "
          "definition means the same in both orders (type checking and evaluation are outside the model) — checked on "
          "the implementation for all single modules, sampled (thorough: all) pairs and random subsets by comparing "
          "names, signatures, unit representations, types, and the raw values of all globals as f64 bit patterns.",
@@ -55,7 +58,8 @@ MANIFEST = dict(
 
 THEOREMS = ["C17_once", "C17_reimport_noop", "C17_closure", "C17_order_free", "C17_env_order_free",
             "C17_imports_succeed", "C17_table_wf", "C17_table_clash_free", "C17_table_keys",
-            "C17_table_closed", "C17_table_acyclic", "C17_stdlib_succeeds", "C17_stdlib_order_free"]
+            "C17_table_closed", "C17_table_acyclic", "C17_stdlib_succeeds", "C17_stdlib_order_free",
+            "C17_defs_available", "C17_stdlib_defs_available"]
 
 
 # ------------------------------------------------------------ translator
